@@ -117,8 +117,10 @@ func vpJSONUnmarshal(data []byte, v interface{}) error {
 	return nil
 }
 
+var vpRandMayFail bool
+
 func vpRandRead(b []byte) (int, error) {
-	if vpBool("rand-fails") {
+	if vpRandMayFail && vpBool("rand-fails") {
 		return 0, errors.New("vp: entropy source failed")
 	}
 	for i := range b {
@@ -191,6 +193,8 @@ func VP_C13_callback() {
 //vp:reach redirected passed
 func VP_C13_authenticated_mw() {
 	vpResetWeb()
+	vpRandMayFail = true
+	defer func() { vpRandMayFail = false }()
 	h := (&OIDCConfig{}).New()
 	id := identity.NewUser()
 	id.SetAuthenticated(vpBool("session-authenticated"))
